@@ -294,6 +294,39 @@ func C01(run *mon.Run) {
 					cs = append(cs, cand{b: s, kind: f.kind})
 				}
 			}
+			// one reused signature buffer and one reused message buffer for a whole candidate series
+			{
+				var bc []byteCand
+				for ci, c := range cs {
+					if ci < 24 || ci%7 == 0 {
+						bc = append(bc, byteCand{c.b, c.kind})
+					}
+				}
+				msgBuf := append(make([]byte, 0, len(t.msg)+64), t.msg...)
+				n := reusedBufferPass(encE, bc, func(sig []byte) (bool, error) { return pk.Verify(sig, msgBuf, h) },
+					func(b []byte) bool { return bytes.Equal(b, encE) },
+					func(kind, what string, b []byte) {
+						run.Violate("C01:reused-buffer:"+kind, fmt.Sprintf("Verify, candidate kind %s, %s (%s)", kind, what, ctx), map[string]any{"ctx": ctx, "candidate": mon.Hex(b), "kind": kind, "msg": mon.Hex(trunc(t.msg, 64)), "pk": mon.Hex(pk.Encode())})
+					})
+				run.Eval(n)
+				// the message buffer now holds another message: the same signature must be rejected, and
+				// accepted again once the buffer holds the message again
+				other := append([]byte{}, t.msg...)
+				if len(other) > 0 {
+					other[len(other)-1] ^= 1
+				}
+				// (only for hashers whose output depends on the message: the constant test hashers do not)
+				if len(t.msg) > 0 && !bytes.Equal(h.ComputeHash(other), h.ComputeHash(t.msg)) {
+					msgBuf[len(msgBuf)-1] ^= 1
+					okA, eA := pk.Verify(encE, msgBuf, h)
+					msgBuf[len(msgBuf)-1] ^= 1
+					okB, eB := pk.Verify(encE, msgBuf, h)
+					run.Eval(2)
+					if okA || eA != nil || !okB || eB != nil {
+						run.Violate("C01:reused-buffer:message", fmt.Sprintf("Verify with the message in a buffer the caller rewrites: other message (%v,%v), the message again (%v,%v) (%s)", okA, eA, okB, eB, ctx), map[string]any{"ctx": ctx, "msg": mon.Hex(trunc(t.msg, 64))})
+					}
+				}
+			}
 			pk3 := jacobianForm(pk, rr)
 			for ci, c := range cs {
 				usePk := pk
